@@ -6,7 +6,7 @@ import numpy as np
 import sysgen
 from c09 import _signal
 
-LEAN_MODULES = ["PyomaVerif.Props.C08", "PyomaVerif.Props.C08Pipe", "PyomaVerif.Props.C08Unity"]
+LEAN_MODULES = ["PyomaVerif.Props.C08", "PyomaVerif.Props.C08Pipe", "PyomaVerif.Props.C08Unity", "PyomaVerif.Props.C08Ms"]
 THEOREMS = [
     "PV.C08.C08_gain_hank_mm",
     "PV.C08.C08_gain_hank_R",
@@ -65,6 +65,13 @@ THEOREMS = [
     "PV.C08.C08_unity_fdd",
     "PV.C08.C08_unity_fdd_mpe",
     "PV.C08.C08_mix_shapes",
+    # multi-setup pipelines under gains (Props/C08Ms.lean)
+    "PV.C08.msObsAll_smul",
+    "PV.C08.C08_ms_gain_ssi",
+    "PV.C08.C08_ms_gain_ssi_dat",
+    "PV.C08.C08_ms_gain_preger",
+    "PV.C08.C08_ms_gain_sd",
+    "PV.C08.C08_ms_gain_fdd_ms",
 ]
 RULE = (
     "metamorphic oracle on the real code: every algorithm class (FDD, EFDD, FSDD, SSIcov[cov_mm, cov_R], SSIdat, pLSCF[per, cor] and "
